@@ -3,6 +3,7 @@ package oracle
 import (
 	"fmt"
 	"math"
+	"runtime"
 	"sort"
 	"sync/atomic"
 
@@ -385,7 +386,7 @@ func init() {
 			"offline checker: every event's tick lies inside the (start,end) interval of a call that was given that monitor object; the monitor globals are idle after every call (hook H4); a layout " +
 			"computed with a monitor equals the layout computed without; non-trivial = the history contains a panicking call with a monitor followed by a call without one",
 		MinNontrivial: counts(800, 10000),
-		Required:      []string{"events_checked", "panicking_calls_with_monitor", "reused_monitor_objects", "layouts_compared"},
+		Required:      []string{"events_checked", "panicking_calls_with_monitor", "reused_monitor_objects", "layouts_compared", "library_chan_monitor_events"},
 		Gen: func(seed int64, tier string, idx int) *core.Case {
 			r := rng("C18", seed, tier, idx)
 			c := &core.Case{Prop: "C18", Tier: tier, Seed: seed, Index: idx, Family: "history"}
@@ -549,8 +550,29 @@ func init() {
 					}
 				}
 			}
+			// the library's own channel monitor (every second history, on the first good graph of the history): once Layout
+			// has returned nobody may still be trying to deliver an event
+			chanCalls, chanEvents := 0, 0
+			if c.Index%2 == 0 {
+				for _, st := range c.History {
+					if len(st.Graph) == 0 || len(st.Graph[len(st.Graph)-1]) != 2 {
+						continue
+					}
+					received, late := chanMonitorLate(st.Graph, st.Opts)
+					if late > 0 {
+						return violated("C18/event-after-return/library-channel-monitor", fmt.Sprintf("the library's channel monitor (unbuffered channel, a consumer that yields between receives) delivered %d events during the call and %d after Layout had returned", received, late))
+					}
+					if !autog.VerifMonitorIdle() {
+						return violated("C18/globals-not-idle", "after a call with the library's channel monitor the package-level monitor state is not idle")
+					}
+					chanCalls, chanEvents = 1, received
+					break
+				}
+			}
 			r := held()
 			r.Nontrivial = ntShape
+			r.stat("library_chan_monitor_calls", chanCalls)
+			r.stat("library_chan_monitor_events", chanEvents)
 			r.stat("events_checked", events)
 			r.stat("panicking_calls_with_monitor", panMon)
 			r.stat("reused_monitor_objects", reused)
@@ -566,6 +588,43 @@ func init() {
 			return r
 		},
 	})
+}
+
+// chanMonitorLate lays out the graph once with the library's own channel monitor on an unbuffered channel. While the call
+// runs a consumer goroutine receives the events and yields the processor between receives (a slow consumer only slows the
+// call down: the monitor's send blocks). After Layout has returned the consumer is stopped and the channel is polled: with a
+// blocking send nothing can arrive any more, because every send completed before Log - and so before Layout - returned;
+// whatever arrives now was still being delivered after the call. No clock is involved.
+func chanMonitorLate(edges [][]string, o core.Opts) (received, late int) {
+	ch := make(chan any)
+	done, fin := make(chan struct{}), make(chan struct{})
+	go func() {
+		defer close(fin)
+		for {
+			select {
+			case <-ch:
+				received++
+				for i := 0; i < 20; i++ {
+					runtime.Gosched()
+				}
+			case <-done:
+				return
+			}
+		}
+	}()
+	o.Monitor = false
+	core.Run(edges, o, autog.WithMonitor(autog.VerifChanMonitor(ch)))
+	close(done)
+	<-fin
+	for i := 0; i < 3000; i++ {
+		select {
+		case <-ch:
+			late++
+		default:
+			runtime.Gosched()
+		}
+	}
+	return received, late
 }
 
 // interval is the logical-clock extent of one Layout call of a C18 history.
